@@ -267,8 +267,11 @@ def load(config="lib"):
         raise Broken("no fact documents")
     F = Facts(docs, config, fact_dir)
     F.inlined = {}
+    F.desugared = {}
     if not os.environ.get("ESPADA_NO_INLINE"):
-        from . import inline
+        from . import desugar, inline
+        if not os.environ.get("ESPADA_NO_DESUGAR"):
+            F.desugared = desugar.normalise(F)
         F.inlined = inline.normalise(F)
     return F
 
